@@ -28,7 +28,7 @@ REQUIRED = ["C16:returns", "C16:cagr", "C16:volatility", "C16:drawdown", "C16:ma
             "C16:downside-volatility", "C16:upside-volatility", "C16:sharpe", "C16:sortino", "C16:calmar", "C16:martin",
             "C16:tracking-error", "C16:scale-pow2-bit-identical", "C16:scale-positive", "C16:cagr-structural",
             "C16:drawdown-structural", "C16:corruption-rejected", "C16:frame-columns", "C16:tearsheet"]
-REQUIRED_CATS = ["plateau", "index:D", "index:B", "index:intraday", "index:irregular", "frame", "series"]
+REQUIRED_CATS = ["tied-returns", "plateau", "index:D", "index:B", "index:intraday", "index:irregular", "frame", "series"]
 TECHNIQUE = "runtime monitoring: pure-Python reference implementation of the textbook definitions compared on generated level series; corruption matrix enumerated"
 LEVEL_TEXT = ("Exploration against an independent pure-Python reference of every listed metric, with exact (power-of-two) and "
               "approximate scale-invariance twins and a fully enumerated single-defect corruption matrix.")
@@ -144,7 +144,16 @@ def series_case(ctx):
     sigma = r.choice([1e-4, 0.01, 0.05])
     scale = r.choice([1e-3, 1, 1e6])
     lev = 100 * np.exp(np.cumsum(nr.normal(0, sigma, n))) * scale
-    if r.random() < 0.25 and n >= 4:
+    if r.random() < 0.15 and n >= 4:
+        # tied returns: levels that only halve, stay or double give returns that are exactly
+        # -0.5, 0 or 1 (binary-exact), so quantiles fall inside groups of tied observations
+        # (a mostly-in-cash track record looks like this)
+        mult = nr.choice([0.5, 1.0, 1.0, 1.0, 1.0, 1.0, 2.0], size=n)
+        if r.random() < 0.5:
+            mult = np.where(nr.random(n) < 0.6, 1.0, mult)
+        lev = 100.0 * scale * np.cumprod(mult)
+        ctx.cat("tied-returns")
+    elif r.random() < 0.25 and n >= 4:
         # plateaus: exactly repeated levels give returns that are exactly zero
         for _ in range(r.randint(1, 3)):
             j = r.randrange(1, n)
